@@ -92,7 +92,7 @@ def f_compute(report):
            ("ge1", r"m_info = gaussian_elimination_1x1\(k\);", "m_info = gaussian_elimination_1x1(B, k); B->kind[k] = 0;", {"max": 1}),
            ("ge2", r"m_info = gaussian_elimination_2x2\(k\);", "m_info = gaussian_elimination_2x2(B, k); B->kind[k] = 1; B->kind[k + 1] = 2;", {"max": 1}),
            ("last-akk", r"const Scalar akk = ScalarOp<Scalar>::real\(diag_coeff\(k\)\);\s*diag_coeff\(k\) = akk;", "const Scalar akk = DIAG_REAL(B, k); if (B->m_perm[k] >= 0) B->kind[k] = 0;", {"max": 1}),
-           ("last-test", r"if \(akk == Scalar\(0\)\)\s*m_info = CompInfo::NumericalIssue;", "if (akk == Scalar(0)) { m_info = CompInfo::NumericalIssue; B->g_singular = 1; }", {"max": 1}),
+           ("last-test", r"if \((akk == Scalar\(0\)|Scalar\(0\) == akk)\)\s*(\{?)\s*m_info = CompInfo::NumericalIssue;", r"if (\1) \2 { m_info = CompInfo::NumericalIssue; B->g_singular = 1; }", {"max": 1}),
            ("compress", r"(?<![\w>])compress_permutation\(\);", "compress_permutation(B);", {"max": 1})]
     inv = ("__CPROVER_assigns(k, B->m_info, B->g_singular, __CPROVER_object_whole(B->m_perm), __CPROVER_object_whole(B->kind)) "
            "__CPROVER_loop_invariant(0 <= k && k <= B->m_n && B->m_n == rows && B->perm_size == rows) "
